@@ -470,12 +470,34 @@ Theorem C09_f64_rate_zero_when_weight_zero : forall p (b : bar FL.F) now,
   est_weight (FL.arp p) (dur_secs (FL.arp p) (since now (start_time (b_est b)))) = B754_zero false ->
   is_zero (FL.arp p) (est_sps (FL.arp p) (b_est b) now) = true /\
   bar_eta (FL.arp p) b now = Some 0%N.
-Proof.
-  exact (fun p b now Hs Hd H1 H2 =>
-    conj (fl_rate_zero_when_weight_zero p (b_est b) now Hs Hd H1 H2)
-         (fl_eta_zero_when_weight_zero p b now Hs Hd H1 H2)).
-Qed.
+Proof. exact fl_zero_when_weight_zero. Qed.
 Print Assumptions C09_f64_rate_zero_when_weight_zero.
+
+(** ** 8. binary64: the rate is finite and non-negative (float-side counterpart of section 1)
+    For the Flocq binary64 instance with ANY powf that returns weights ([pow_ok]: finite values in
+    [0,1], below 1 for exponents >= 2^-34), arguments that fit u64 as in the Rust code, no
+    assumption on the clock: per_sec() is a finite, non-negative binary64 number (no NaN, no
+    infinity, no negative zero-crossing) strictly after the last restart of the estimator /
+    strictly after the start of a finished bar.  The proof carries the invariant
+    smoothed <= 2^95, double_smoothed <= 2^149 through every record. *)
+Theorem C09_f64_finite_nonneg : forall p evs t0 now,
+  pow_ok p -> Forall ev_u64 evs -> (now < U64)%N ->
+  let e := est_runA (FL.arp p) evs (est_new (FL.arp p) t0) in
+  (start_time e < now)%N ->
+  is_finite (est_sps (FL.arp p) e now) = true /\ 0 <= B2R (est_sps (FL.arp p) e now).
+Proof. exact fl_history_finite_nonneg. Qed.
+Print Assumptions C09_f64_finite_nonneg.
+
+(** every history of public calls (set_position, inc, dec, update, tick, set_length, unset_length,
+    reset_eta, reset_elapsed, reset, finish, abandon, clock advances) *)
+Theorem C09_f64_bar_finite_nonneg : forall p len t0 ops,
+  pow_ok p -> (t0 < U64)%N -> (forall l, len = Some l -> (l < U64)%N) -> Forall op_u64 ops ->
+  let b := fst (run_state (FL.arp p) ops t0 (bar_new (FL.arp p) len t0)) in
+  let now := snd (run_state (FL.arp p) ops t0 (bar_new (FL.arp p) len t0)) in
+  (if b_done b then (b_started b < now)%N else (start_time (b_est b) < now)%N) ->
+  is_finite (bar_per_sec (FL.arp p) b now) = true /\ 0 <= B2R (bar_per_sec (FL.arp p) b now).
+Proof. exact fl_bar_finite_nonneg. Qed.
+Print Assumptions C09_f64_bar_finite_nonneg.
 
 (** ** Non-vacuity *)
 (** a monotonic history with an acceleration (1/s for 15 s, then 100/s for 15 s): hypotheses of
@@ -520,3 +542,7 @@ Proof. exact steady_ops_example. Qed.
 Example C09_nonvacuous_decay_condition :
   est_run [ERec 15 15000000000] (est_new Rar 0) = (mkEst (9 / 10) (9 / 10) 15%N 15000000000%N 0%N : est R).
 Proof. exact wit1_state. Qed.
+
+(** [pow_ok] is satisfiable: the step function "1.0 at exponent 0, 0.5 above" *)
+Example C09_nonvacuous_pow_ok : pow_ok pow_step.
+Proof. exact pow_ok_step. Qed.
